@@ -169,6 +169,10 @@ def boundary_scenarios(work, rng, tier):
         s.set_xattr(p, "security.selinux", b"ctx\0")
     s.set_xattr("f", "user.bin", bytes(range(256)))
     s.set_xattr("dev/p", "trusted.t", b"")
+    # value classes for the -x dump: NUL inside / at the end, control characters, newline, invalid and valid UTF-8
+    s.add_file("/xv", b"x")
+    for i, v in enumerate([b"a\0b", b"tail\0", b"\0", b"line1\nline2", b"tab\there", b"\x01\x02", b"\xff\xfe", "h\u00e4ll\u00f6".encode(), b"\xc3", b"=eq=", b"0x41"]):
+        s.set_xattr("xv", "user.v%02d" % i, v)
     out.append((s, ["-e"]))
     # many ids
     nid = 300 if tier == "quick" else 3000
@@ -325,6 +329,27 @@ def run(tier):
                 rc2, o2, e2 = sh([tools + "/rdsquashfs", "-c", nm, out], timeout=60)
                 if rc2 != 0 or o2 != s.files[nm]:
                     res["reader"].append("rdsquashfs -c %r returns different bytes (rc %d)" % (nm, rc2))
+            # -x: every pair must be recoverable from the dump: "key=" followed by the raw value bytes or by 0x<HEX>
+            xa = getattr(s, "xattrs", {})
+            for nm in sorted(xa)[:8]:
+                rc4, o4, e4 = sh([tools + "/rdsquashfs", "-x", nm, out], timeout=60)
+                want = xa[nm]
+                rest = o4
+                okx = rc4 == 0
+                # pairs come in stored order (unknown here): peel them off in any order
+                left = dict(want)
+                while okx and left:
+                    for k, v in list(left.items()):
+                        forms = [k.encode() + b"=" + v + b"\n", k.encode() + b"=0x" + v.hex().upper().encode() + b"\n"]
+                        hit = next((f for f in forms if rest.startswith(f)), None)
+                        if hit is not None:
+                            rest = rest[len(hit):]
+                            del left[k]
+                            break
+                    else:
+                        okx = False
+                if not okx or rest:
+                    res["reader"].append("rdsquashfs -x %r does not show the stored pairs %s: output %r" % (nm, sorted(left)[:3], o4[:120]))
             rc3, o3, e3 = sh([tools + "/rdsquashfs", "-d", out], timeout=60)
             if rc3 != 0 or len([l for l in o3.split(b"\n") if l.strip()]) != len(s.nodes) + len(getattr(s, "links", {})):
                 res["reader"].append("rdsquashfs -d: rc %d, %d lines for %d entries" % (rc3, len([l for l in o3.split(b'\n') if l.strip()]), len(s.nodes) + len(getattr(s, "links", {}))))
